@@ -88,7 +88,7 @@ def run(prog, rep):
     rep.rule('R8.2', 'ParseStream over AutoUTFInputStream names AutoUTF as source encoding', floor=1)
     rep.rule('R8.3', 'ToRapidUtfType / ToPugiUtfType: each UtfType enumerator returns the like-named back-end constant; the default throws', floor=12)
     rep.rule('R8.4', 'stream renderers get the configured encoding and BOM flag', floor=4)
-    rep.rule('R8.5', 'formatting options: pretty output iff enableFormat; indent = paddingChar x paddingCharNum', floor=6)
+    rep.rule('R8.5', 'formatting options: pretty output iff enableFormat; indent = paddingChar x paddingCharNum', floor=4)
     rep.rule('R8.6', 'XML input: stream load auto-detects the encoding, string load is UTF-8', floor=2)
     json_render.check(prog, rep, 'R8.1', want=('accept',))
     json_render.check(prog, rep, 'R8.2', want=('parsestream',))
@@ -120,6 +120,15 @@ def run(prog, rep):
             rets = [x for st in stmts for x in f.walk(st) if x['k'] == 'ReturnStmt']
             throws = [x for st in stmts for x in f.walk(st) if x['k'] == 'CXXThrowExpr']
             if lab == 'default':
+                if not throws and not rets:
+                    # 'default: break;' - what follows the switch decides: it must end in a throw without returning a value
+                    par = f.parent(sws[0])
+                    after = []
+                    if par is not None and par['k'] == 'CompoundStmt':
+                        idx = [i for i, x in enumerate(par['c']) if x is sws[0]]
+                        after = par['c'][idx[0] + 1:] if idx else []
+                    throws = [x for st in after for x in f.walk(st) if x['k'] == 'CXXThrowExpr']
+                    rets = [x for st in after for x in f.walk(st) if x['k'] == 'ReturnStmt']
                 if throws and not rets:
                     rep.ok('R8.3', '%s|default throws' % fname)
                 else:
@@ -143,10 +152,11 @@ def run(prog, rep):
     # ---------------------------------------------------------------- R8.4 / R8.5 (JSON)
     n_json = n_xml = 0
     for f in sorted(prog.funcs.values(), key=lambda g: g.id):
-        if f.body is None or not f.id.startswith('(lambda at') or f.name != 'operator()':
+        if f.body is None:
             continue
-        is_json = 'rapidjson_archive.h' in f.id
-        is_xml = 'pugixml_archive.h' in f.id
+        # the renderers live in the visitor lambdas of Finalize() or in helpers extracted from them: every function of the two adapter headers
+        is_json = f.relfile.endswith('rapidjson_archive.h')
+        is_xml = f.relfile.endswith('pugixml_archive.h')
         if not (is_json or is_xml):
             continue
         if is_json:
@@ -191,6 +201,9 @@ def run(prog, rep):
             for s in saves:
                 n_xml += 1
                 enc = s['c'][4] if len(s['c']) > 4 else None
+                if enc is not None:
+                    from bsv.expr import resolve
+                    enc = resolve(f, enc) or enc
                 if 'basic_ostream' in (f.callee(s) or {}).get('id', ''):
                     c1 = [x for x in f.walk(enc) if x['k'] == 'CallExpr' and (f.callee(x) or {}).get('n') == 'ToPugiUtfType'] if enc else []
                     if c1 and 'encoding' in member_names(f, enc):
